@@ -6,6 +6,7 @@ require (
 	github.com/cockroachdb/pebble v0.0.0-20221207173255-0f086d933dac
 	github.com/jamf/regatta v0.0.0
 	github.com/lni/dragonboat/v4 v4.0.0-20231222133740-1d6e2d76cd57
+	github.com/lni/vfs v0.2.1-0.20220616104132-8852fd867376
 	go.uber.org/zap v1.27.0
 	google.golang.org/grpc v1.63.2
 )
@@ -37,7 +38,6 @@ require (
 	github.com/kr/pretty v0.3.1 // indirect
 	github.com/kr/text v0.2.0 // indirect
 	github.com/lni/goutils v1.4.0 // indirect
-	github.com/lni/vfs v0.2.1-0.20220616104132-8852fd867376 // indirect
 	github.com/miekg/dns v1.1.56 // indirect
 	github.com/oxtoacart/bpool v0.0.0-20190530202638-03653db5a59c // indirect
 	github.com/pierrec/lz4/v4 v4.1.18 // indirect
